@@ -9,6 +9,7 @@ import (
 	"fmt"
 	"math"
 	"os"
+	"strconv"
 	"strings"
 	"testing"
 
@@ -548,6 +549,33 @@ func TestQVFrameOps(t *testing.T) {
 					v := 2.0 / c.f
 					return mcell{null: c.null || math.IsNaN(v), f: v}
 				}},
+				{"abs(Val(i)) (operand is a user column wrapped in Val)", "n", qframe.Expr("abs", qframe.Val(types.ColumnName("i"))), "int", func(m mframe, r int) mcell {
+					v := ic(m, "i", r)
+					if v < 0 {
+						v = -v
+					}
+					return mcell{i: v}
+				}},
+				{"abs(Val(i)) onto i", "i", qframe.Expr("abs", qframe.Val(types.ColumnName("i"))), "int", func(m mframe, r int) mcell {
+					v := ic(m, "i", r)
+					if v < 0 {
+						v = -v
+					}
+					return mcell{i: v}
+				}},
+				{"Val(i) + Val(j)", "n", qframe.Expr("+", qframe.Val(types.ColumnName("i")), qframe.Val(types.ColumnName("j"))), "int", func(m mframe, r int) mcell { return mcell{i: ic(m, "i", r) + ic(m, "j", r)} }},
+				{"abs(abs(Val(j)) - Val(i))", "j", qframe.Expr("abs", qframe.Expr("-", qframe.Expr("abs", qframe.Val(types.ColumnName("j"))), qframe.Val(types.ColumnName("i")))), "int", func(m mframe, r int) mcell {
+					a := ic(m, "j", r)
+					if a < 0 {
+						a = -a
+					}
+					v := a - ic(m, "i", r)
+					if v < 0 {
+						v = -v
+					}
+					return mcell{i: v}
+				}},
+				{"str(i) (unary, result of another type)", "n", qframe.Expr("str", types.ColumnName("i")), "string", func(m mframe, r int) mcell { return mcell{s: strconv.Itoa(ic(m, "i", r))} }},
 				{"const 5", "n", qframe.Val(5), "int", func(m mframe, r int) mcell { return mcell{i: 5} }},
 				{"column i", "n", qframe.Val(types.ColumnName("i")), "int", func(m mframe, r int) mcell { return mcell{i: ic(m, "i", r)} }},
 				{"const onto const-temp-0", "const-temp-0", qframe.Val(1), "int", func(m mframe, r int) mcell { return mcell{i: 1} }},
@@ -577,6 +605,20 @@ func TestQVFrameOps(t *testing.T) {
 				}
 				want := modelApply(d.m, all, "n", "int", func(r int) mcell { return mcell{i: 2 * ic(d.m, "i", r)} })
 				rp.expect("C07 Eval: user function", d.name, d.f.Eval("n", qframe.Expr("twice", types.ColumnName("i")), eval.EvalContext(ctx)), want)
+				// a user context is the caller's: what is registered or redefined in it is not visible through any other context
+				if err := ctx.SetFunc("+", func(x, y int) int { return x - y }); err != nil {
+					rp.fail("C07 SetFunc", err.Error())
+				}
+				rp.expect("C07 Eval: function redefined in the user context", d.name, d.f.Eval("n", qframe.Expr("+", types.ColumnName("i"), types.ColumnName("j")), eval.EvalContext(ctx)),
+					modelApply(d.m, all, "n", "int", func(r int) mcell { return mcell{i: ic(d.m, "i", r) - ic(d.m, "j", r)} }))
+				rp.expect("C07 Eval: default context affected by SetFunc on another context", d.name, d.f.Eval("n", qframe.Expr("+", types.ColumnName("i"), types.ColumnName("j"))),
+					modelApply(d.m, all, "n", "int", func(r int) mcell { return mcell{i: ic(d.m, "i", r) + ic(d.m, "j", r)} }))
+				rp.expect("C07 Eval: default context affected by SetFunc on another context", d.name+" (fresh default context)", d.f.Eval("n", qframe.Expr("+", types.ColumnName("i"), types.ColumnName("j")), eval.EvalContext(eval.NewDefaultCtx())),
+					modelApply(d.m, all, "n", "int", func(r int) mcell { return mcell{i: ic(d.m, "i", r) + ic(d.m, "j", r)} }))
+				rp.evals++
+				if d.f.Eval("n", qframe.Expr("twice", types.ColumnName("i"))).Err == nil {
+					rp.fail("C07 Eval: default context affected by SetFunc on another context", d.name+": function registered in a user context found through the default context")
+				}
 			})
 			// ---- C10: invalid use -> Err, sticky, no callback ----
 			rp.guard("C10 errors", d.name, func() {
